@@ -13,13 +13,17 @@ structure StoreMono (a b : Store) : Prop where
   sender : a.sender ≤ b.sender
   target : a.target ≤ b.target
 
-/-- no reset option is configured -/
-def NoResetOptions (cfg : Cfg) : Prop := cfg.resetOnLogon = false ∧ cfg.resetOnLogout = false ∧ cfg.resetOnDisconnect = false
+/-- ResetOnLogon / ResetOnLogout / ResetOnDisconnect are off -/
+def NoResetFlags (cfg : Cfg) : Prop := cfg.resetOnLogon = false ∧ cfg.resetOnLogout = false ∧ cfg.resetOnDisconnect = false
+
+/-- no reset option is configured: the three flags are off and there is no ResetSeqTime -/
+def NoResetOptions (cfg : Cfg) : Prop := NoResetFlags cfg ∧ cfg.resetSeqTime = none
 
 /-- an inbound message that does not negotiate a reset: not a Logon carrying ResetSeqNumFlag=Y -/
 def NoResetIn (m : InMsg) : Prop := kindOf m = "A" → logonResetFlag m = false
 
-/-- an event that neither negotiates nor forces a reset: no inbound / outbound Logon with 141=Y, no "new session" clock tick -/
+/-- an event that neither negotiates nor forces a reset: no inbound / outbound Logon with 141=Y, no "new session" clock tick
+    (CheckResetTime ticks are allowed: without a configured ResetSeqTime — `NoResetOptions` — they do nothing) -/
 def NoResetEv : Ev → Prop
   | .incomingMsg (some m) => NoResetIn m
   | .arrive m => NoResetIn m
